@@ -30,6 +30,23 @@ def base_modules(g, rng, count):
     # 64-bit literal context + switch
     mods.append(["15/-/7/L40,L1", "2b/7/8/Q123456789abcdef0", "1/7/9/-", "fb/-/-/R9,R20,Q1,R21,Qffffffffffffffff,R22"])
     mods.append(["15/-/7/L80,L0", "2b/7/8/L1"])  # unsupported width (rejected)
+    # every enumerant / mask bit that takes parameters, alone in a module (fault enumeration then
+    # drops / duplicates each parameter word)
+    dec, em = by["Decorate"], by["ExecutionMode"]
+    for ty, e, idx in (("Decoration", dec, 1), ("ExecutionMode", em, 1)):
+        for v in g.enum_values(ty):
+            if g.params_of(ty, v):
+                mods.append([gen.instruction(e, {}, "min", force={idx: v})])
+    for k in g.flags:
+        if k not in g.args:
+            continue
+        carrier = next(((e, i) for e in g.core for i, (kk, _) in enumerate(e["operands"]) if kk == k), None)
+        if carrier:
+            for b in g.flag_bits(k):
+                if g.params_of(k, b):
+                    mods.append([gen.instruction(carrier[0], {}, "min", force={carrier[1]: b})])
+            mods.append([gen.instruction(carrier[0], {}, "min", force={carrier[1]: g.flag_all(k)})])
+    count = max(count, len(mods))
     while len(mods) < count:
         k = rng.randrange(2, 7)
         es = [rng.choice(g.core) for _ in range(k)]
@@ -147,6 +164,10 @@ def run(rep):
                 lines.append("parse - " + (data.hex() or "-"))
                 datas.append(data)
                 descs.append((insts, desc))
+                if len(data) % 4 == 0 and (desc == "intact" or desc.startswith("truncate") or rng.random() < 0.1):
+                    lines.append("parsew - " + (data.hex() or "-"))
+                    datas.append(data)
+                    descs.append((insts, desc + " (parse_words)"))
         for n in range(0, 20):
             lines.append("parse - " + (bytes(rng.randrange(256) for _ in range(n)).hex() or "-"))
             datas.append(bytes.fromhex(lines[-1].split()[2]) if lines[-1].split()[2] != "-" else b"")
